@@ -441,7 +441,7 @@ func (mpt *MerklePatriciaTrie) delete(key Key, prefix, path Path) (Node, Key, er
 		if ln, ok := node.(*LeafNode); ok && len(ln.Path) != 0 {
 			return nil, nil, ErrValueNotPresent // the leaf holds a longer path, there is nothing to delete
 		}
-		return mpt.deleteAfterPathTraversal(node)
+		return mpt.deleteAfterPathTraversal(node, prefix)
 	}
 	return mpt.deleteAtNode(key, node, prefix, path)
 }
@@ -685,7 +685,7 @@ func (mpt *MerklePatriciaTrie) deleteAtNode(key Key, node Node, prefix, path Pat
 		return mpt.insertNode(node, nnode)
 	case *LeafNode:
 		if bytes.Equal(path, nodeImpl.Path) {
-			return mpt.deleteAfterPathTraversal(node)
+			return mpt.deleteAfterPathTraversal(node, prefix)
 		}
 
 		return nil, nil, ErrValueNotPresent // There is nothing to delete
@@ -772,7 +772,7 @@ func (mpt *MerklePatriciaTrie) insertAfterPathTraversal(value MPTSerializable, n
 	}
 }
 
-func (mpt *MerklePatriciaTrie) deleteAfterPathTraversal(node Node) (Node, Key, error) {
+func (mpt *MerklePatriciaTrie) deleteAfterPathTraversal(node Node, prefix Path) (Node, Key, error) {
 	switch nodeImpl := node.(type) {
 	case *FullNode:
 		if !nodeImpl.HasValue() {
@@ -780,6 +780,10 @@ func (mpt *MerklePatriciaTrie) deleteAfterPathTraversal(node Node) (Node, Key, e
 		}
 		// The value of the branch needs to be updated
 		nnode := nodeImpl.Clone().(*FullNode)
+		if nnode.GetNumChildren() == 1 {
+			// a full node with a single child and no value anymore should lift up the child
+			return mpt.liftOnlyChild(node, nnode, prefix)
+		}
 		nnode.SetValue(nil)
 		// if nodeImpl.HasValue() {
 		// 	mpt.ChangeCollector.DeleteChange(nodeImpl.Value)
@@ -798,6 +802,50 @@ func (mpt *MerklePatriciaTrie) deleteAfterPathTraversal(node Node) (Node, Key, e
 	default:
 		panic(fmt.Sprintf("unknown node type: %T %v", node, node))
 	}
+}
+
+// liftOnlyChild replaces a full node that holds no value anymore and has a single child by that child,
+// the same way deleteAtNode does it when the second last child of a full node without value is deleted
+func (mpt *MerklePatriciaTrie) liftOnlyChild(node Node, fn *FullNode, prefix Path) (Node, Key, error) {
+	var otherChildKey []byte
+	var oidx byte
+	for idx, pe := range PathElements {
+		child := fn.GetChild(pe)
+		if child != nil {
+			oidx = byte(idx)
+			otherChildKey = child
+			break
+		}
+	}
+	ochild, err := mpt.getNode(otherChildKey)
+	if err != nil {
+		return nil, nil, err
+	}
+	npath := []byte{fn.indexToByte(oidx)}
+	var nnode Node
+	switch onodeImpl := ochild.(type) {
+	case *FullNode:
+		nnode = NewExtensionNode(npath, otherChildKey)
+	case *LeafNode:
+		lnode := ochild.Clone().(*LeafNode)
+		lnode.SetOrigin(mpt.Version)
+		lnode.Path = concat(npath, onodeImpl.Path...)
+		lnode.Prefix = concat(prefix)
+		nnode = lnode
+		if err := mpt.deleteNode(ochild); err != nil {
+			return nil, nil, err
+		}
+	case *ExtensionNode:
+		enode := ochild.Clone().(*ExtensionNode)
+		enode.Path = concat(npath, onodeImpl.Path...)
+		nnode = enode
+		if err := mpt.deleteNode(ochild); err != nil {
+			return nil, nil, err
+		}
+	default:
+		return nil, nil, fmt.Errorf("unknown node type: %T %v", ochild, ochild)
+	}
+	return mpt.insertNode(node, nnode)
 }
 
 func (mpt *MerklePatriciaTrie) iterate(ctx context.Context, path Path, key Key, handler MPTIteratorHandler, visitNodeTypes byte) error {
